@@ -30,3 +30,23 @@ Proof.
   split; [exact ex_special|]. split; [exact ex_fault_free|]. split; [exact ex_clock_ok|].
   destruct ex_result as [A [B [C0 _]]]. auto.
 Qed.
+
+(* ---- C15: a rotating write in that history (the fifth write): MaxFiles = 1 keeps the newest rotated file only ---- *)
+Definition ex_w4 : world := run ex_cfg [7%N] (Some 488%N) 0 (firstn 4 ex_ops).
+Example ex_rotation :
+  fault_free (firstn 4 ex_ops) /\ clock_ok 0 (firstn 4 ex_ops ++ [wr 5 6 40]) /\
+  step_rot ex_cfg ex_w4 (wr 5 6 40) = true /\ step_ok ex_cfg ex_w4 (wr 5 6 40) = true /\
+  stamps_of (files ex_w4) = [23] /\ stamps_of (files (step ex_cfg ex_w4 (wr 5 6 40))) = [43] /\ bw ex_w4 = 12.
+Proof. split; [repeat constructor|]. split; [cbn; lia|]. vm_compute. repeat split; reflexivity. Qed.
+
+(* ---- outside the quantifiers of C08/C15: the write-retry branch (needs a failing write(2)) ---- *)
+Definition retry_ok : wfault := {| first_fails := true; leaves_partial := false; second_fails := false |}.
+Definition retry_partial : wfault := {| first_fails := true; leaves_partial := true; second_fails := false |}.
+Definition ex_retry (f : wfault) : world := run ex_cfg [] None 0 [Write 1 5 1 2 3 4 5 f].
+(* the retried write is acknowledged but not counted in BytesWritten *)
+Example retry_not_counted : acked (ex_retry retry_ok) = [1%N] /\ reading (files (ex_retry retry_ok)) = [1%N] /\
+  bw (ex_retry retry_ok) = 0 /\ since_open (ex_retry retry_ok) = 5.
+Proof. vm_compute. repeat split; reflexivity. Qed.
+(* a first attempt that wrote part of the event leaves those bytes in the file, in front of the whole event *)
+Example retry_leaves_partial : acked (ex_retry retry_partial) = [1%N] /\ reading (files (ex_retry retry_partial)) = [0%N; 1%N].
+Proof. vm_compute. repeat split; reflexivity. Qed.
